@@ -14,7 +14,7 @@ from __future__ import annotations
 
 import copy
 
-from ..absint import TOP, Evaluator, Obj, Sym, Unmodelled
+from ..absint import Lin, TOP, Evaluator, Obj, Sym, Unmodelled
 from ..harness import apply_attr_models, apply_models, da_attr_models, da_method_models, dispatch_models, m_from_string, m_sig_ctor, run_apply
 from ..registry import extract, parse_signature
 from ..xmodel import COMMON_MODELS, dimsym, make_da, make_grid
@@ -51,8 +51,8 @@ def full_dispatch(P, funcname, pos, to, positions=None, axis_arg=None, dims=None
                                                 "in_ax_names": [tuple(n for n, _ in a) for a in ins], "in_ax_positions": [tuple(p for _, p in a) for a in ins],
                                                 "out_ax_names": [tuple(n for n, _ in a) for a in outs], "out_ax_positions": [tuple(p for _, p in a) for a in outs]})
         attrs = {"__class__": "grid_ufunc:GridUFunc", "signature": sig, "ufunc": Obj("func", e.name), "__isinstance__": ("GridUFunc",),
-                 "boundary_width": e.options.get("boundary_width"), "boundary": e.options.get("boundary"), "fill_value": e.options.get("fill_value"),
-                 "dask": e.options.get("dask", "forbidden"), "map_overlap": e.options.get("map_overlap", False), "pad_before_func": e.options.get("pad_before_func", True)}
+                 "boundary_width": e.attrs.get("boundary_width"), "boundary": e.attrs.get("boundary"), "fill_value": e.attrs.get("fill_value"),
+                 "dask": e.attrs.get("dask"), "map_overlap": e.attrs.get("map_overlap"), "pad_before_func": e.attrs.get("pad_before_func")}
         members.append((e.name, Obj("GridUFunc", e.name, (), attrs)))
     members.sort(key=lambda m: m[0])
 
@@ -201,6 +201,10 @@ def check(ctx):
     B.must_raise("G10", app, "grid ufunc: more arguments than the signature has inputs", lambda: run_apply(P, "(X:center)->(X:left)", [(AX,), (AX,)], args=lambda: (make_da("a", [dimsym("AX", "center")]), make_da("b", [dimsym("AX", "center")])), boundary_width={"X": (1, 0)}))
     B.must_raise("G10", app, "grid ufunc: fewer arguments than axis entries", lambda: run_apply(P, "(X:center),(X:center)->(X:left)", [(AX,), (AX,)], args=lambda: (make_da("a", [dimsym("AX", "center")]),), boundary_width={"X": (1, 0)}))
     B.must_raise("G10", app, "grid ufunc: signature position the axis lacks", lambda: run_apply(P, "(X:outer)->(X:center)", [(AX,)], args=lambda: (make_da("a", [dimsym("AX", "outer")]),), positions=["center", "left"], axnames=("AX",)))
+    B.must_raise("G10", app, "grid ufunc: signature position the axis lacks, second pair of one argument",
+                 lambda: run_apply(P, "(X:center,Y:outer)->(X:center)", [(AX, AY)], args=lambda: (make_da("a", [dimsym("AX", "center"), dimsym("AY", "center")]),), positions=["center", "left"]))
+    B.must_raise("G10", app, "grid ufunc: signature position the axis lacks, second argument",
+                 lambda: run_apply(P, "(X:center),(X:outer)->(X:center)", [(AX,), (AX,)], args=lambda: (make_da("a", [dimsym("AX", "center")]), make_da("b", [dimsym("AX", "center")])), positions=["center", "left"], axnames=("AX",)))
     B.must_return("G10", app, "valid: grid ufunc with matching inputs", lambda: run_apply(P, "(X:center),(X:left)->(X:center)", [(AX,), (AX,)], args=lambda: (make_da("a", [dimsym("AX", "center")]), make_da("b", [dimsym("AX", "left")])), boundary_width={"X": (1, 1)}))
 
 
@@ -284,14 +288,14 @@ def _transform(ctx, P, B):
         kcalls.append(1)
         return Obj("ndarray", "KERNEL-OUT")
 
-    from ..concrete import REPRESENTATIVES, truth_hook
+    from ..concrete import REPRESENTATIVES_ALL, truth_hook
 
-    # bins given as one representative per order class; the source's monotonicity test is evaluated on it
+    # bins given as representatives of each order class; the source's monotonicity test is evaluated on them
     try:
-        res = {}
-        for cls in ("increasing", "decreasing", "neither"):
-            ev = Evaluator(P, models={"transform:_interp_1d_conservative": m_kernel}, call_hook=truth_hook({"bins": REPRESENTATIVES[cls]}))
-            res[cls] = ev.run_paths(kfi, lambda: dict(phi=Obj("ndarray", "phi", (), {"shape": TOP}), theta=Obj("ndarray", "theta"), target_theta_bins=Obj("ndarray", "bins")))
+        res = {"increasing": [], "decreasing": [], "neither": []}
+        for cls, vec in [(c, v) for c in res for v in REPRESENTATIVES_ALL[c]]:
+            ev = Evaluator(P, models={"transform:_interp_1d_conservative": m_kernel}, call_hook=truth_hook({"bins": vec}))
+            res[cls] += ev.run_paths(kfi, lambda: dict(phi=Obj("ndarray", "phi", (), {"shape": (Lin.sym("cols"), Lin.sym("n")), "ndim": 2}), theta=Obj("ndarray", "theta", (), {"shape": (Lin.sym("cols"), Lin.sym("n") + Lin.of(1)), "ndim": 2}), target_theta_bins=Obj("ndarray", "bins", (), {"ndim": 1})))
         if any(o.kind != "raise" for o in res["neither"]):
             ctx.report("G8", kfi, "non-monotonic conservative bins", "bins that are neither strictly increasing nor strictly decreasing are answered instead of refused")
         elif any(o.kind != "return" for cls in ("increasing", "decreasing") for o in res[cls]):
